@@ -639,6 +639,23 @@ type fsClientCase struct {
 	pre     string // "", "dir", "file", "symlink": object placed at /tmp/<leaf> beforehand
 	send    bool
 	srv     string // r:<n> | x | f
+	// the peer address RECORDED on the stream (Stream.SetPeerAddr: what client.Connect, the shared-port
+	// client, the CCB requester or the application wrote there) when it is set apart from the
+	// connection's real remote address `peer`. It is a declared value: an address-qualified name must
+	// name the endpoint the client is REALLY connected to, whatever is recorded.
+	setRecorded bool
+	recorded    string
+}
+
+// recordedFor renders an endpoint the way callers record a peer on a stream (a sinful string, bare
+// host:port, with parameters) — or something that is no address at all.
+func (g *fsGen) recordedFor(a net.Addr) string {
+	h, p, ok := fsPeerHP(a)
+	if !ok || g.n(8) == 0 {
+		return g.pick("", "<>", "pipe", "<host.example.com:9618>", "schedd@host.example.com", "<127.0.0.1>", "<:9618>")
+	}
+	hp := net.JoinHostPort(h, p)
+	return g.pick("<"+hp+">", "<"+hp+">", "<"+hp+">", hp, "<"+hp+"?sock=schedd_17_a1b2>", "<"+hp+"?addrs="+hp+"&alias=host.example.com>")
 }
 
 func fsClientErrClass(err error, wrote bool) string {
@@ -770,6 +787,9 @@ func runFsClientOnce(c *Ctx, g *fsGen, cs fsClientCase) (op, real string, bad []
 		}
 	}
 	st := stream.NewStream(conn)
+	if cs.setRecorded {
+		st.SetPeerAddr(cs.recorded)
+	}
 	var err error
 	cctx := bg
 	srvTok := cs.srv
@@ -800,6 +820,9 @@ func runFsClientOnce(c *Ctx, g *fsGen, cs fsClientCase) (op, real string, bad []
 
 	op = fmt.Sprintf("client %s %s %s %s %s %s", b01(cs.remote), fsPeerTok(cs.peer), b01(mkdirOK), b01(cs.send), srvTok, msgTok)
 	ops := []string{op, "# path=" + strconv.Quote(cs.path)}
+	if cs.setRecorded {
+		ops = append(ops, "# the connection's real remote address is "+fmt.Sprint(cs.peer)+"; Stream.SetPeerAddr("+strconv.Quote(cs.recorded)+") was called before the exchange (a recorded, declared address: not an input of the check)")
+	}
 
 	// what the client put on the wire
 	reply := "-"
@@ -1163,9 +1186,9 @@ func runFsServerOnce(c *Ctx, g *fsGen, cs fsServerCase) (op, real string, bad []
 
 // runFsHonest: a finding is reported only when the exchange, run again on its own, fails again (the
 // directory lives in the shared /tmp for the duration of the exchange).
-func runFsHonest(c *Ctx, network, addr string, remote bool) (ran bool, bad []Violation) {
+func runFsHonest(c *Ctx, network, addr string, remote bool, recorded string) (ran bool, bad []Violation) {
 	for try := 0; ; try++ {
-		ran, bad = runFsHonestOnce(c, network, addr, remote)
+		ran, bad = runFsHonestOnce(c, network, addr, remote, recorded)
 		if !ran || len(bad) == 0 || try == 2 {
 			return
 		}
@@ -1174,7 +1197,10 @@ func runFsHonest(c *Ctx, network, addr string, remote bool) (ran bool, bad []Vio
 	}
 }
 
-func runFsHonestOnce(c *Ctx, network, addr string, remote bool) (ran bool, bad []Violation) {
+// recorded != "": the client's stream carries that string as its recorded peer address (SetPeerAddr)
+// although the socket is connected to the listener — the server qualifies the name with the endpoint
+// that was really dialed, and that is what the client must accept.
+func runFsHonestOnce(c *Ctx, network, addr string, remote bool, recorded string) (ran bool, bad []Violation) {
 	l, err := net.Listen(network, addr)
 	if err != nil {
 		return false, nil
@@ -1207,7 +1233,11 @@ func runFsHonestOnce(c *Ctx, network, addr string, remote bool) (ran bool, bad [
 	defer conn.Close()
 	ctx, cancel := context.WithTimeout(bg, 10*time.Second)
 	defer cancel()
-	cerr := security.VerifFSAuthClient(ctx, stream.NewStream(rec.wrap(conn)), remote)
+	cst := stream.NewStream(rec.wrap(conn))
+	if recorded != "" {
+		cst.SetPeerAddr(recorded)
+	}
+	cerr := security.VerifFSAuthClient(ctx, cst, remote)
 	var sr sres
 	select {
 	case sr = <-ch:
@@ -1215,6 +1245,9 @@ func runFsHonestOnce(c *Ctx, network, addr string, remote bool) (ran bool, bad [
 		sr = sres{"", fmt.Errorf("server timed out")}
 	}
 	ops := []string{fmt.Sprintf("# honest exchange over %s %s remote=%v", network, l.Addr(), remote)}
+	if recorded != "" {
+		ops = append(ops, "# the client's stream records the peer as "+strconv.Quote(recorded)+" (SetPeerAddr); the socket is connected to the listener")
+	}
 	me, _ := user.Current()
 	if cerr != nil || sr.err != nil || me == nil || sr.user != me.Username {
 		bad = append(bad, Violation{Property: "C18", Key: "C18:honest-exchange-fails:" + network, What: "a real server and a real client on one machine do not complete FS authentication with the owner as identity",
@@ -1545,7 +1578,28 @@ func runFsPath(c *Ctx) (err error) {
 	// ---- whole client exchange ----
 	for i, n := 0, c.Pick(6000, 120000); i < n; i++ {
 		p, remote, peer, class := g.pathCase()
-		cs := fsClientCase{path: p, remote: remote, peer: peer, class: class, payload: append([]byte(p), 0), send: true, srv: "r:0"}
+		setRecorded, recorded := false, ""
+		if g.n(4) == 0 {
+			// the stream's recorded peer address differs from the connection's real remote address
+			alt := g.peer()
+			for t := 0; t < 4 && (alt == nil || peer == nil || alt.String() == peer.String()); t++ {
+				alt = g.peer()
+			}
+			setRecorded, recorded = true, g.recordedFor(alt)
+			rc := "recorded-other"
+			if h, pt, ok := fsPeerHP(alt); ok && net.ParseIP(h) != nil && (strings.HasPrefix(class, "good") || strings.HasPrefix(class, "addr")) && g.n(2) == 0 {
+				// … and the name is qualified with the RECORDED endpoint, which the client is not connected to
+				pfx := "FS_"
+				if remote {
+					pfx = "FS_REMOTE_"
+				}
+				p = fsBase + "/" + pfx + h + "_" + pt + "_" + g.suffix()
+				rc = "recorded-named"
+			}
+			class += "/" + rc
+			c.Count("client:" + rc)
+		}
+		cs := fsClientCase{path: p, remote: remote, peer: peer, class: class, payload: append([]byte(p), 0), send: true, srv: "r:0", setRecorded: setRecorded, recorded: recorded}
 		switch g.n(12) {
 		case 0:
 			cs.srv = g.pick("r:-1", "r:1", "r:7", "r:-9223372036854775808")
@@ -1672,9 +1726,16 @@ func runFsPath(c *Ctx) (err error) {
 				l.Close()
 			}
 		}
-		for _, remote := range []bool{false, true} {
+		for _, hv := range []struct {
+			remote   bool
+			recorded string
+		}{{false, ""}, {true, ""}, {false, "<192.0.2.7:9618>"}, {true, "<[2001:db8::7]:9618?sock=schedd_1>"}, {true, "<schedd.pool.example:9618>"}} {
+			remote := hv.remote
 			c.Planned("fspath-honest-exchanges", 1)
-			ran, bad := runFsHonest(c, nw[0], nw[1], remote)
+			ran, bad := runFsHonest(c, nw[0], nw[1], remote, hv.recorded)
+			if hv.recorded != "" {
+				c.Count("honest:recorded-peer-differs")
+			}
 			if !ran {
 				c.Count("honest:unavailable:" + nw[0])
 				continue
